@@ -4,16 +4,17 @@
 EXTENDS HDriver, TLC, Json
 VARIABLES sc, done
 AllOutcomes == Outcome
-InitAll == /\ sc \in [outs : [Pids -> AllOutcomes], crashes : [1..NBatches -> BOOLEAN]] /\ done = FALSE
-           /\ UNCHANGED <<>>
+InitAll == Init /\ sc \in [outs : [Pids -> AllOutcomes], crashes : [1..NBatches -> BOOLEAN]] /\ done = FALSE
 Emit == PrintT(ToJson([n |-> NProgs, batch |-> BatchSize, pool |-> Pool, outs |-> sc.outs, crashes |-> sc.crashes]))
-NextNone == UNCHANGED <<sc, done>>
+NextNone == UNCHANGED <<vars, sc, done>>
 \* random scenarios: one behaviour = one scenario, built program by program
-InitEmpty == sc = [outs |-> <<>>, crashes |-> <<>>] /\ done = FALSE
-Grow == \/ /\ Len(sc.outs) < NProgs /\ ~done
+InitEmpty == Init /\ sc = [outs |-> <<>>, crashes |-> <<>>] /\ done = FALSE
+GrowSc ==
+        \/ /\ Len(sc.outs) < NProgs /\ ~done
            /\ \E o \in AllOutcomes : sc' = [sc EXCEPT !.outs = Append(@, o)] /\ done' = done
         \/ /\ Len(sc.outs) = NProgs /\ Len(sc.crashes) < NBatches /\ ~done
            /\ \E c \in BOOLEAN : sc' = [sc EXCEPT !.crashes = Append(@, c)] /\ done' = done
         \/ /\ Len(sc.outs) = NProgs /\ Len(sc.crashes) = NBatches /\ ~done /\ done' = TRUE /\ UNCHANGED sc
            /\ Emit
+Grow == UNCHANGED vars /\ GrowSc
 =============================================================================
